@@ -314,6 +314,40 @@ def _shrink_task(modname, record, ident, opts, budget_s):
         faulthandler.cancel_dump_traceback_later()
 
 
+def _dies(modname, seed, indices, opts, limit_s=900):
+    """Run the indices in a fresh single-worker pool; True if that worker process dies."""
+    ctx = multiprocessing.get_context("fork")
+    pool = ProcessPoolExecutor(max_workers=1, mp_context=ctx)
+    try:
+        fut = pool.submit(_batch, modname, seed, indices, dict(opts, selftest_n=0), 0, limit_s)
+        try:
+            fut.result(timeout=limit_s + 30)
+            return False
+        except BrokenProcessPool:
+            return True
+        except Exception:
+            return False
+    finally:
+        pool.shutdown(wait=False, cancel_futures=True)
+
+
+def _find_crasher(modname, seed, indices, opts):
+    """Smallest run index in `indices` (a range/list) whose execution kills the interpreter, or None."""
+    indices = list(indices)
+    if not _dies(modname, seed, indices, opts):
+        return None
+    while len(indices) > 1:
+        half = indices[: len(indices) // 2]
+        if _dies(modname, seed, half, opts):
+            indices = half
+        else:
+            rest = indices[len(indices) // 2:]
+            if not _dies(modname, seed, rest, opts):
+                return None      # not reproducible in isolation
+            indices = rest
+    return indices[0]
+
+
 def _size(rec):
     return sum(len(v) for v in rec.values()) * 1000 + sum(sum(v) for v in rec.values())
 
@@ -329,6 +363,19 @@ def replay_path(prop, record, ident=()):
 def do_replay(mod, path, opts):
     with open(path) as f:
         data = json.load(f)
+    if data.get("crash"):
+        code = ("import sys; sys.path.insert(0, %r); from simkit import driver; import importlib; driver.bind_repo(); "
+                "m = importlib.import_module(%r); from simkit.tape import Tape; "
+                "m.run_one(Tape(seed=%d, prop=m.ID, index=%d), dict(%r, want_sample=False)); print('SURVIVED')"
+                % (VERIF_DIR, mod.__name__, data["seed"]["VERIF_SEED"], data["seed"]["run"], data.get("opts") or {}))
+        p = subprocess.run([sys.executable, "-B", "-c", code], capture_output=True, text=True, timeout=600)
+        print(f"replay property={mod.ID} file={path} (crash replay: run {data['seed']['run']} of seed {data['seed']['VERIF_SEED']} in a child process)")
+        if "SURVIVED" in p.stdout and p.returncode == 0:
+            print("no violation on this tree (the child process survived)")
+            return 0
+        print(f"  violation kind=process-crash key=interpreter-died step=None\n    child exit status {p.returncode}; stderr tail: {p.stderr[-400:]}")
+        print(f"VIOLATION property={mod.ID} replay={path}")
+        return 1
     streams = data["streams"]
     want = data.get("violation") or {}
     tape = Tape(streams=streams, trace=True)
@@ -409,7 +456,9 @@ def main(modname, argv=None):
     late_new = {"ihashes": 0, "hhashes": 0}
     new_violations = {}   # ident -> first (lowest index) record
     known_hits = collections.Counter()
+    reported = []
     harness_errors = []
+    crashers = []
     capped = False
     ctx = multiprocessing.get_context("fork")
     pool = ProcessPoolExecutor(max_workers=jobs, mp_context=ctx)
@@ -445,9 +494,24 @@ def main(modname, argv=None):
                 try:
                     agg = fut.result()
                 except BrokenProcessPool:
-                    harness_errors.append(f"worker died (watchdog or crash) in batch {r.start}..{r.stop}")
+                    # A worker process died: either our watchdog fired, or a run crashed the interpreter
+                    # (a segfault from runaway recursion in the code under test, say).  The latter is a
+                    # finding, not a harness problem: look for the run index that does it on its own.
+                    in_flight = [r] + list(pending.values())
                     stop_submitting = True
                     pending.clear()
+                    crasher = None
+                    for rng in in_flight:
+                        if fut is not selftest_future:
+                            crasher = _find_crasher(modname, args.seed, rng, opts)
+                        if crasher is not None:
+                            break
+                    if crasher is None:
+                        harness_errors.append(f"worker died (watchdog or crash) in batches {[(x.start, x.stop) for x in in_flight]}; not reproducible in isolation")
+                    else:
+                        crashers.append(crasher)
+                    pool.shutdown(wait=False, cancel_futures=True)
+                    pool = ProcessPoolExecutor(max_workers=jobs, mp_context=ctx)
                     break
                 except Exception as e:  # pragma: no cover
                     harness_errors.append(f"batch {r.start}..{r.stop}: {e!r}")
@@ -499,7 +563,6 @@ def main(modname, argv=None):
                 pending[selftest_future] = range(args.start, args.start + selftest_n)
 
         # ---------------------------------------------------------------- violations
-        reported = []
         if new_violations and not harness_errors:
             items = sorted(new_violations.items(), key=lambda kv: kv[1][0]["index"])[:3]
             budget = {"quick": 20, "thorough": 120}[args.tier]
@@ -532,6 +595,23 @@ def main(modname, argv=None):
                     harness_errors.append(
                         f"violation {ident} seen in runs {[v['index'] for v in cands]} did not reproduce from its replay file in a fresh process"
                     )
+        for idx in crashers:
+            data = {
+                "property": mod.ID, "check_version": getattr(mod, "VERSION", 1), "repo": repo_rev(),
+                "seed": {"VERIF_SEED": args.seed, "run": idx},
+                "opts": {k: v for k, v in opts.items() if k not in ("want_sample", "selftest_n")},
+                "streams": None, "crash": True, "minimised": False,
+                "decoded": {"note": "this run kills the interpreter; the tape is regenerated from the seed and run index"},
+                "violation": {"kind": "process-crash", "key": "interpreter-died", "step": None,
+                              "message": f"run {idx} (VERIF_SEED {args.seed}) terminates the worker process"},
+            }
+            path = replay_path(mod.ID, {"crash": [idx, args.seed]}, ("process-crash", "interpreter-died"))
+            with open(path, "w") as f:
+                json.dump(data, f, indent=1)
+            if match_known(known, "process-crash", "interpreter-died") is not None:
+                known_hits[("process-crash", "interpreter-died")] += 1
+            else:
+                reported.append((("process-crash", "interpreter-died"), path))
     finally:
         # (wait: tearing the pool down while its management thread is still alive prints a stray
         # "Bad file descriptor" at interpreter exit)
